@@ -128,7 +128,7 @@ def run_case(case):
     nac = int(mw.npy(d.nacon)[0])
     for w in range(nworld):
       rows = mw.efc_rows(mjm, m, d, w)
-      if rows["nefc_raw"] > d.njmax or nac > d.naconmax or not rows["J_ok"]:
+      if not E.capacity_ok(d, w, rows):
         rec.count("evaluations_capacity_exceeded")
         continue
       n = E.admissibility(rec, mjm, m, d, w, rows=rows, contact_force=True, start=ws[w])
